@@ -4,6 +4,7 @@ import (
 	"bufio"
 	"fmt"
 	"io"
+	"math"
 	"os"
 	"rare/pkg/expressions"
 	"rare/pkg/logger"
@@ -22,6 +23,8 @@ func LoadDefinitionsFile(compiler *expressions.KeyBuilder, filename string) (map
 
 func LoadDefinitions(compiler *expressions.KeyBuilder, r io.Reader, source string) (map[string]expressions.KeyBuilderFunction, error) {
 	scanner := bufio.NewScanner(r)
+	// no limit on the length of a line (the default, 64 KiB, silently ended the file at the first longer line)
+	scanner.Buffer(nil, math.MaxInt)
 	ret := make(map[string]expressions.KeyBuilderFunction)
 
 	errors := 0
@@ -67,6 +70,9 @@ func LoadDefinitions(compiler *expressions.KeyBuilder, r io.Reader, source strin
 		}
 	}
 
+	if err := scanner.Err(); err != nil {
+		return ret, fmt.Errorf("%s:%d Error reading: %w", source, linenum+1, err)
+	}
 	if errors > 0 {
 		return ret, fmt.Errorf("%s: Had %d error(s)", source, errors)
 	}
